@@ -22,7 +22,8 @@ from .common import ROOT, cbool, clist, copt
 
 PROP = "C17"
 F4 = "F4_len_cache_remove_then_add"
-G1 = "C17G1_builtin_registered_after_import_runs_both"
+G1 = "C17G1_builtin_registered_after_import_runs_both"   # fixed in /repo 96b79e1 (F17): a recurrence is a VIOLATION
+G2 = "C17G2_builtin_registered_after_module_glue_ran"
 KINDS = {"main": dict(imports="From SS Require Import Base M_Glue.", type="glue_case",
                       mismatch="mismatches", nontrivial="count_nontrivial")}
 SHARD = 400
@@ -58,10 +59,10 @@ CONFIG = dict(
                    "processed and the cache is written' is proved for the scanning thread running on its own "
                    "(C17_failure_scan_completes), not under interleaving with BaseException-raising glue of other threads"],
     NOTES=("Deviation from DESIGN: the two pops of one loop iteration are ONE model step (no checkpoint separates them, so "
-           "no schedule between them can be realised against the code); never_both needs the hypothesis that built-in glue "
-           "is registered before the module is first imported -- a registration for an already imported module runs the "
-           "built-in at once although the module's own glue also runs later (candidate finding C17-G1, witness "
-           "C17_never_both_refuted)."),
+           "no schedule between them can be realised against the code); never_both is stated for histories whose "
+           "builtin_glue registrations all precede the first extraction (built-in glue is registered when stackscope is "
+           "imported); a registration after the module's own glue already ran still runs the built-in too (candidate "
+           "finding C17-G2, outside that space)."),
     timeout={"quick": 900, "thorough": 5400},
 )
 
@@ -132,13 +133,14 @@ def f4_pattern(desc) -> bool:
     return False
 
 
-def g1_pattern(desc) -> bool:
-    """a builtin_glue registration names a module that has been inserted before"""
-    ever = set(e[1] for e in _effects(desc) if e[0] == "I")
+def late_reg(desc) -> bool:
+    """some builtin_glue registration happens after an extraction has started (outside the property's
+    space: built-in glue is registered when stackscope is imported)"""
+    seen_x = False
     for op in _all_ops(desc):
-        if op[0] == "I":
-            ever.add(op[1])
-        elif op[0] == "G" and op[1] in ever:
+        if op[0] == "X":
+            seen_x = True
+        elif op[0] == "G" and seen_x:
             return True
     return False
 
@@ -266,6 +268,8 @@ class _Case:
 
         def fn():
             if imm_name is not None:
+                cur = self.env.sys.modules.get(NNAME % imm_name)
+                self.bcur[len(self.log)] = self.objid.get(id(cur)) if cur is not None else None
                 self.log.append(["I", ident, imm_name])
             else:
                 nm = self.callname.get(self.env.threading.get_ident(), -1)
@@ -608,10 +612,11 @@ def _oracle(desc, obs):
                     out.setdefault("prefers", "built-in glue %d ran for name %d although module object %d offered its own glue"
                                    % (e[1], e[2], cur))
         if e[0] == "I":
-            # registration ran the built-in at once: the module under that name must not (ever) run its own
-            if any(x[0] == "M" and x[2] == e[2] for x in log):
-                out.setdefault("both", "built-in glue %d ran at registration for name %d and a module of that name ran its own glue"
-                               % (e[1], e[2]))
+            # registration ran the built-in at once: that module object must not (ever) run its own glue
+            cur = obs["bcur"].get(str(i))
+            if cur is not None and any(x[0] == "M" and x[1] == cur and x[2] == e[2] for x in log):
+                out.setdefault("both", "built-in glue %d ran at registration for name %d and module object %d ran its own glue"
+                               % (e[1], e[2], cur))
         if e[0] in ("M", "B"):
             spec = objs[e[1]][1] if e[0] == "M" else (desc["bfns"][e[1]] if e[1] < len(desc["bfns"]) else ["ok", []])
             if spec[0] == "raise":
@@ -646,7 +651,7 @@ def direct_oracle(desc, obs):
         return msg
     if f4_pattern(desc):
         res.pop("timely", None)
-    if g1_pattern(desc):
+    if late_reg(desc):
         res.pop("both", None)
     for k in ("once", "both", "prefers", "warn", "timely"):
         if k in res:
@@ -784,8 +789,8 @@ def with_twins(d, stride_state=[0]):
         stride_state[0] += 1
         if d.get("gen") != "exh" or stride_state[0] % 7 == 0:
             yield dict(d, _sig=F4, only="timely")
-    if g1_pattern(d):
-        yield dict(d, _sig=G1, only="both")
+    if late_reg(d):
+        yield dict(d, _sig=G2, only="both")
 
 
 def rand_fn(rng, nn, no, p_eff=0.2):
@@ -896,7 +901,7 @@ def specials():
     # replacement of a module object under the same name
     out.append({"mode": "seq", "via": "direct", "scanned": True, "objs": [M, M], "bfns": [], "gen": "special",
                 "ops": [["I", 0, 0], ["X"], ["I", 0, 1], ["X"]]})
-    # C17-G1: registration after import
+    # F17 (fixed): registration after import, module with own glue / without; registration after the glue ran (C17-G2)
     out.append({"mode": "seq", "via": "direct", "scanned": True, "objs": [M], "bfns": [["ok", []]], "gen": "special",
                 "ops": [["I", 0, 0], ["G", 0], ["X"]]})
     # the repo's own tests: module beats built-in; None module with raising built-in
@@ -957,16 +962,15 @@ def make_inputs(tier, seed):
 
 
 def extra_legs(tier, seed):
-    """nothing beyond bookkeeping: which recorded findings were reproduced by the oracle-only twins
-    is decided by the driver from their `_sig`; here we only report the candidate finding C17-G1."""
-    env = _env()
+    """reports the candidate finding C17-G2 (built-in registered after the module's own glue ran)"""
     d = {"mode": "seq", "via": "direct", "scanned": True, "objs": [["mod", ["ok", []]]], "bfns": [["ok", []]],
-         "ops": [["I", 0, 0], ["G", 0], ["X"]], "gen": "special"}
+         "ops": [["I", 0, 0], ["X"], ["G", 0]], "gen": "special"}
     obs = run_case(d)
     both = _oracle(d, obs).get("both")
     return {"evaluations": 1, "violations": [],
-            "info": {"candidate_finding_G1": {"signature": G1, "reproduced": bool(both), "input": d, "log": obs["log"],
-                                               "text": "builtin_glue() for an already imported module runs the built-in glue at "
-                                                       "once; the module's own _stackscope_install_glue_ runs at the next "
-                                                       "extraction as well (both kinds for one module, built-in not beaten)",
-                                               "recorded_in_known_findings": G1 in _known_sigs()}}}
+            "info": {"candidate_finding_G2": {"signature": G2, "reproduced": bool(both), "input": d, "log": obs["log"],
+                                               "text": "builtin_glue() for a module whose own _stackscope_install_glue_ has "
+                                                       "already run (registration after the first extraction) runs the built-in "
+                                                       "glue as well: both kinds for one module object; outside the property's "
+                                                       "space (built-in glue is registered when stackscope is imported)",
+                                               "recorded_in_known_findings": G2 in _known_sigs()}}}
